@@ -292,8 +292,12 @@ def run(repo, tier) -> Result:
     ok = len(c) == 1 and any(ast.unparse(k.value) == "-2" for k in c[0].keywords if k.arg == "index") or (len(c) == 1 and len(c[0].args) == 2 and ast.unparse(c[0].args[1]) == "-2")
     (res.ok("R-CONTRACT", {"helper": "Hexital.prev_reading", "index": -2}) if ok else res.fail("R-CONTRACT", finding("C20", "R-CONTRACT", hp, hp.node, "Hexital.prev_reading must read index -2", construct="Hexital.prev_reading: index")))
     ip = repo.method("hexital.core.indicator", "Indicator", "prev_reading")
-    txt = ast.unparse(ip.node)
-    ok = "self._active_index == 0" in txt and "self._active_index - 1" in txt
+    from ..contracts import check_wrappers
+    from ..core import Result as _R
+
+    tmp = _R("C20", res.tier)
+    check_wrappers("C20", tmp, repo)
+    ok = not any(f.function.endswith("prev_reading") for f in tmp.findings)
     (res.ok("R-CONTRACT", {"helper": "Indicator.prev_reading", "why": "None at index 0, else index - 1"}) if ok else res.fail("R-CONTRACT", finding("C20", "R-CONTRACT", ip, ip.node, "Indicator.prev_reading must return None at index 0 and read _active_index - 1 otherwise", construct="Indicator.prev_reading: guard/offset")))
     check_index_contracts(res, repo)
     check_resolver_shape(res, repo)
